@@ -199,7 +199,25 @@ theorem outcome_independent_of_cache (env : Env) (s : St) (c' : Cache)
     body itself (vCards, plain files, already-normalised calendars) are coherent. -/
 theorem coherent_by_extension (env : Env) (n t : String) (r : Option String)
     (hn : env.norm (hkOfName n) t = t) : Coherent env (.put n none t r) := by
-  simp [Coherent, handlerFor, uidOf, hn]
+  unfold Coherent handlerFor uidOf
+  by_cases h : hkOfName n = .plain
+  · simp [h] at hn ⊢; rw [hn]
+  · simp [h, hn]
+
+/-- **whatever content type the client declares**: for a name whose extension selects a specific
+    type (`.ics`, `.vcf`) the upload is opened with the handler it is read back with
+    (`store.open_for_import`), so the upload is coherent for *every* declared content type —
+    before the repair (handler chosen by the declared type alone) an `.ics` member declared
+    `application/octet-stream` escaped validation and the UID check. -/
+theorem coherent_whatever_the_declared_type (env : Env) (n t : String) (ct r : Option String)
+    (hext : hkOfName n ≠ .plain) (hn : env.norm (hkOfName n) t = t) : Coherent env (.put n ct t r) := by
+  unfold Coherent handlerFor uidOf
+  simp [hext, hn]
+
+/-- the handler does not depend on the declared type for such a name -/
+theorem handler_by_extension (n : String) (ct : Option String) (hext : hkOfName n ≠ .plain) :
+    handlerFor ct n = hkOfName n := by
+  unfold handlerFor; simp [hext]
 
 example (env : Env) : UidInv env (init .tree) := UidInv.init env .tree
 
